@@ -36,9 +36,8 @@ ArgMaxSet(M, t, Vn, stEnv) ==
         LET env == EnvAt(M, stEnv, c, t) IN Feasible(M, env) /\ Q(M, t, Vn, env) = best}
 \* set of possible next states after state/choice env
 NextStateSet(M, env) ==
-  LET det == NextDet(M, env)
-      sn  == StochNames(M)
-  IN {det @@ [st \in sn |-> R(l[st])] :
+  LET sn  == StochNames(M)
+  IN {NextDetGiven(M, env, l) @@ [st \in sn |-> R(l[st])] :
         l \in {l \in LabelCombos(M) : \A st \in sn : ShockRow(M, st, env)[l[st] + 1] # R(0)}}
 \* a row of the panel
 MkRow(M, t, Vn, stEnv, c) ==
